@@ -3,6 +3,8 @@
 //!
 //! Payload kinds (chan_host::Kind):
 //!   B  `u8`     canonical: `StreamVtable { lower: None, lift: None, dealloc_lists: None }` (streams only)
+//!   H W D T  `u16`, `u32`, `u64`, `(u32, u32)`: canonical like `u8` but 2, 4, 8, 8 bytes wide (streams only);
+//!            the values are patterns in which every byte depends on the id (chan_host::w_value …)
 //!   R  `RItem`  needs lowering, owns no list: 8 bytes `(chan: u32, id: u32)`
 //!   S  `SItem`  needs lowering and owns a heap list: 16 bytes `(ptr, len)` of the bytes "<c>:<id>"
 //! Items are numbered per channel; every callback records a token and checks the ledger:
@@ -423,6 +425,44 @@ impl Payload for u8 {
         fvt!(u8, 1, 1, b_lower, b_dealloc, b_lift)
     }
 }
+
+macro_rules! canonical_payload {
+    ($t:ty, $kind:expr, $size:expr, $align:expr, $make:expr, $id:expr) => {
+        impl Payload for $t {
+            const KIND: Kind = $kind;
+            fn make(c: usize, id: u32) -> $t {
+                let f: fn(usize, u32) -> $t = $make;
+                f(c, id)
+            }
+            fn id(&self) -> u32 {
+                let f: fn(&$t) -> u32 = $id;
+                f(self)
+            }
+            fn svt() -> &'static StreamVtable<$t> {
+                svt!($t, $size, $align, None, None, None)
+            }
+            fn fvt() -> &'static FutureVtable<$t> {
+                unsafe fn lo(_v: $t, _dst: *mut u8) {
+                    ev("!canonical-future-unsupported");
+                }
+                unsafe fn de(_dst: *mut u8) {}
+                unsafe fn li(_src: *mut u8) -> $t {
+                    ev("!canonical-future-unsupported");
+                    let f: fn(usize, u32) -> $t = $make;
+                    f(0, 0)
+                }
+                fvt!($t, $size, $align, lo, de, li)
+            }
+        }
+    };
+}
+/// an id that no item has: the value read back is not one the peer wrote
+const GARBAGE: u32 = 0xffff_fff0;
+canonical_payload!(u16, Kind::H, 2, 2, |_c, id| id as u16, |v| *v as u32);
+canonical_payload!(u32, Kind::W, 4, 4, |_c, id| chan_host::w_value(id), |v| chan_host::w_id(*v).unwrap_or(GARBAGE));
+canonical_payload!(u64, Kind::D, 8, 8, |_c, id| chan_host::d_value(id), |v| chan_host::d_id(*v).unwrap_or(GARBAGE));
+canonical_payload!((u32, u32), Kind::T, 8, 4, |c, id| (chan_host::T_TAG + c as u32, id),
+    |v| if v.0 & 0xffff_0000 == chan_host::T_TAG { v.1 } else { GARBAGE });
 
 impl Payload for RItem {
     const KIND: Kind = Kind::R;
